@@ -293,6 +293,9 @@ impl Fill for FrameBuf {
         if !(1..=4).contains(&bytes_per_sample) {
             return Err(SourceError::by_reason(SourceErrorReason::InvalidBuffer));
         }
+        if bytes.len() % bytes_per_sample != 0 {
+            return Err(SourceError::by_reason(SourceErrorReason::InvalidBuffer));
+        }
         let sample_count = bytes.len() / bytes_per_sample;
         if sample_count > self.samples.len() {
             return Err(SourceError::by_reason(SourceErrorReason::InvalidBuffer));
